@@ -65,6 +65,7 @@ type c12Case struct {
 	Ties    bool  `json:"ties"`
 	Micro   bool  `json:"micro,omitempty"`   // operations are 1us apart instead of 1s
 	NoStats bool  `json:"nostats,omitempty"` // no StatsTracker attached (the metric oracle is skipped)
+	Unl     bool  `json:"unl,omitempty"`     // TimeToLive is UnlimitedTTL and the entries are written without a TTL: nothing ever expires
 	Exp     int   `json:"exp,omitempty"`     // that many additional entries which are long expired: the cycle deletes them before it looks at the limits
 }
 
@@ -118,6 +119,10 @@ func c12One(cc c12Cell, cs c12Case) (string, string, string, int) {
 		cfg.Stats = nil
 	}
 
+	if cs.Unl {
+		cfg.TimeToLive = cache.UnlimitedTTL
+	}
+
 	// a soft limit of 2^62 bytes is configured but can never be exceeded: it must not cause eviction
 	if cc.Mem == "heap" || cc.Mem == "both" {
 		cfg.HeapInUseSoftLimit = 1 << 62
@@ -157,11 +162,19 @@ func c12One(cc c12Cell, cs c12Case) (string, string, string, int) {
 			ttl = time.Duration(200-i/2) * time.Minute
 		}
 
-		if err := b.Write(cache.WithTTL(ctx, ttl, false), []byte(k), i); err != nil {
+		wctx := cache.WithTTL(ctx, ttl, false)
+		if cs.Unl {
+			wctx = ctx // never-expiring entries: limits apply to them like to any other
+		}
+
+		if err := b.Write(wctx, []byte(k), i); err != nil {
 			return "write", err.Error(), "", ops
 		}
 
 		model[k] = &c12Entry{key: k, expiry: vclock.NowQuiet().Add(ttl).UnixNano()}
+		if cs.Unl {
+			model[k].expiry = 0
+		}
 		ops++
 
 		tick()
@@ -411,6 +424,17 @@ func c12Cases(cc c12Cell, tier string) []c12Case {
 		}
 	}
 
+	// a cache whose entries never expire (UnlimitedTTL, no per-call TTL): sizes around and above the limit, with a few reads
+	for _, n := range []int{cc.Limit - 1, cc.Limit, cc.Limit + 1, cc.Limit + 3, 3*cc.Limit + 7} {
+		if n < 0 {
+			continue
+		}
+
+		for _, h := range [][]int{{}, {0}, {1, 0}, {2, 2, 1}} {
+			cases = append(cases, c12Case{N: n, Reads: h, Unl: true})
+		}
+	}
+
 	// the limits are looked at after the expired-items step: long-expired entries on top of the live ones must not
 	// count (sizes around the limit, no access history)
 	for _, n := range []int{cc.Limit - 1, cc.Limit, cc.Limit + 1, cc.Limit + 3} {
@@ -548,7 +572,7 @@ func init() {
 		ID: "C12", Title: "Eviction fires only on limit breach, removes the right amount in strategy order",
 		Cells: c12Cells, Run: c12Run,
 		Rule: "complete grid CountSoftLimit x EvictFraction {default,0.1,0.25,0.5,0.9,1} x strategy {MostExpired,LRU,LFU} x EvictionNeeded {nil,false,true} x 3 backends; " +
-			"per cell every size 0..L+6, 3L+7, 10L x every read history of length <=3 (quick) / <=4 (thorough) over 4 keys x {operations 1s apart, 1us apart, all at one instant (tied ranks)}; sizes around the limit with 1 or 3 additional long-expired entries (deleted by the cycle before it looks at the limits); for LRU/LFU also every history of length <=3 over {4 reads, ExpireAll, re-write of a key} on two sizes above the limit, and over {4 reads, 2 serves through Load} with and without a StatsTracker attached; two cleanup cycles through the janitor's own invokeCleanup; " +
+			"per cell every size 0..L+6, 3L+7, 10L x every read history of length <=3 (quick) / <=4 (thorough) over 4 keys x {operations 1s apart, 1us apart, all at one instant (tied ranks)}; sizes around the limit on a cache whose entries never expire (UnlimitedTTL); sizes around the limit with 1 or 3 additional long-expired entries (deleted by the cycle before it looks at the limits); for LRU/LFU also every history of length <=3 over {4 reads, ExpireAll, re-write of a key} on two sizes above the limit, and over {4 reads, 2 serves through Load} with and without a StatsTracker attached; two cleanup cycles through the janitor's own invokeCleanup; " +
 			"oracle: no eviction without breach, amount within one entry of the documented target, removed ranks <= kept ranks, cache_evict equals the entries actually removed",
 		Assumptions: []string{
 			"HeapInUseSoftLimit / SysMemSoftLimit depend on runtime.ReadMemStats, which is not a seam the harness owns; the shared code path after the decision is exercised through EvictionNeeded, and cells with limits of 2^62 bytes (heap only, sys only, both) check that a configured but unexceeded memory limit never evicts",
